@@ -112,7 +112,10 @@ def build_robot(spec):
                 r = rt.CUR.robot
                 present = [hasattr(r, n) for n in _spec["components"]]
                 inj = [getattr(self, a, None) is getattr(r, a, rt.ABSENT) for a in _c.get("inject", ())]
-                rt.cb(_site, {"all_components_exist": all(present), "injected_identity": inj})
+                # "after all injection is done": every component, not only this one, already has its injected attributes
+                everyone = [getattr(getattr(r, n, None), a, None) is getattr(r, a, rt.ABSENT)
+                            for n, cc in _spec["components"].items() for a in cc.get("inject", ())]
+                rt.cb(_site, {"all_components_exist": all(present), "injected_identity": inj, "all_injected": all(everyone)})
             body["setup"] = setup
         base_body = {}
         for r in c.get("resets", ()):
@@ -253,6 +256,7 @@ class Run:
             th.start()
             left = dwell
             ended_called = False
+            cur_fms = [spec["fms"]]
             while True:
                 st = gate.wait_parked(30.0)
                 if st == "timeout":
@@ -267,6 +271,13 @@ class Run:
                 if self.nt_reader is not None:
                     arr["nt"] = self.nt_reader()
                 self.arrivals.append(arr)
+                fch = spec.get("fms_changes", {}).get(str(len(self.arrivals) - 1))
+                if fch is not None:
+                    from wpilib.simulation import DriverStationSim as _DS
+                    cur_fms[0] = fch
+                    _DS.setFmsAttached(fch)
+                    _DS.notifyNewData()
+                    rec.log.append(["fms", fch])
                 left -= 1
                 if left <= 0:
                     seg += 1
@@ -279,7 +290,7 @@ class Run:
                         en, au, te = MODE_WORDS[mode]
                         if mode == "disabled":
                             au, te = spec.get("disabled_flags", {}).get(str(seg), (False, False))
-                        simenv.set_ds(en, au, te, fms=spec["fms"])
+                        simenv.set_ds(en, au, te, fms=cur_fms[0])
                 alarm = e.alarm_of(gate.current_delay)
                 if alarm is not None:
                     e.step_to(alarm)
